@@ -156,7 +156,15 @@ def native_case(contract_module, cls_name, shape_idx, model=None, seed=None):
             if run is not None:
                 ret = run(sh, a)
             else:
-                ret = resolve_native(C.target)(*a)
+                fn = resolve_native(C.target)
+                try:
+                    import inspect
+
+                    ps = [p for p in inspect.signature(fn).parameters.values() if p.kind in (p.POSITIONAL_ONLY, p.POSITIONAL_OR_KEYWORD)]
+                    k = len(ps) if not any(p.kind == p.VAR_POSITIONAL for p in inspect.signature(fn).parameters.values()) else len(a)
+                except (TypeError, ValueError):
+                    k = len(a)
+                ret = fn(*a[:k])
             if hasattr(ret, "__next__"):
                 ret = list(ret)
         except api.SkipCase:
@@ -240,7 +248,10 @@ def run_concrete(contract_module, cls_name, shape_idx, concrete):
             if run is not None:
                 ret = I.call(run, [sh, a], {})
             else:
-                ret = I.call(I.resolve(I.getattr(C, "target")), a, {})
+                from .harness import _arity
+
+                tgt = I.resolve(I.getattr(C, "target"))
+                ret = I.call(tgt, a[:_arity(tgt, len(a))], {})
         except PyRaise as pr:
             out["raised"] = pr.exc.cls.name
             return out
